@@ -14,7 +14,7 @@ PRELUDE = '''#![allow(warnings)]
 use ascent::{ascent, ascent_par, ascent_run, ascent_run_par, ascent_source};
 use ascent::Dual;
 use ascent_byods_rels::{eqrel, trrel, trrel_uf};
-'''
+''' + ' '.join('pub const VC%d: i32 = %d;' % (i, i) for i in range(8)) + '\n'
 
 
 def deps_dir(profile='dbg'):
